@@ -727,3 +727,13 @@ def r06_6(F, R):
     brk = [n for n in H.walk(b["body"]) if H.ctor_of(n) and H.ctor_of(n)[1] == "Break"]
     R.inst(rid, "provider:declines-class-body", len(brk) == 1, sp=b["sp"], nontrivial=False)
     R.floor(rid, 6)
+
+
+def thorough(F, R, repo):
+    """thorough tier only: rustc's own verdict that Namespace<N> cannot be constructed outside quill (compile-fail witness with twin)."""
+    from lib import witness as W
+    R.rule("R06.7", "witness compiled by rustc from an external crate: the tuple constructor of quill's Namespace<N> is private (E0603), "
+                    "Namespace::new compiles")
+    s = W.run(F, R, "R06.7", want_prefix=["quill::"])
+    R.floor("R06.7", 1)
+    return s
